@@ -2,7 +2,7 @@
     (evaluated with [vm_compute]); the same histories run on the real code in the checks. *)
 From Coq Require Import ZifyBool ZifyNat ZifyN.
 From RN Require Import Base.Res Base.AMap Naming.Service Naming.ServiceProofs Naming.Timeout Naming.Filter
-  Naming.Actor Naming.IndexProofs Naming.ActorProofs Naming.FilterProofs Naming.OwnershipProofs Naming.ExpiryProofs
+  Naming.Actor Naming.IndexProofs Naming.ActorProofs Naming.BudgetProofs Naming.FilterProofs Naming.OwnershipProofs Naming.ExpiryProofs
   Naming.Script Naming.ScriptProofs Naming.ExpiryTraceProofs Naming.ArmedProofs Naming.Regression.
 Local Open Scope N_scope.
 
@@ -74,3 +74,18 @@ Example refresh_rearms_example :
   is_range (0, 1) 0 = true /\
   option_map is_enable_timeout (stored (refresh_process_range (fun _ => 0) a (0, 1)) k1 0) = Some true.
 Proof. split; [eexists; vm_compute; repeat split; try reflexivity; discriminate|]. vm_compute. split; reflexivity. Qed.
+
+(** C13 budget: two services with two silent instances each, budget 1: the first round handles
+    only the first service of the order, the second round (other order) finishes; nothing is lost *)
+Example budget_example :
+  let k2 : skey := (1, 2, 1) in
+  let a := st [OpUpdate k1 (http 0) reg false; OpUpdate k1 (http 1) reg false;
+               OpUpdate k2 (http 0) reg false; OpUpdate k2 (http 1) reg false; OpTick 300] in
+  let a1 := time_check_budget cfg0 1 [k2; k1] a in
+  BudgetProofs.visited cfg0 1 [k2; k1] a = [k2] /\ BudgetProofs.complete cfg0 1 [k2; k1] a = false /\
+  option_map i_healthy (stored a1 k2 0) = Some false /\ option_map i_healthy (stored a1 k1 0) = Some true /\
+  hset_of a1 k1 = hset_of a k1 /\
+  let a2 := time_check_budget cfg0 1 [k2; k1] a1 in
+  option_map i_healthy (stored a2 k1 0) = Some false /\ option_map i_healthy (stored a2 k1 1) = Some false /\
+  BudgetProofs.Phi a = 8%nat.
+Proof. vm_compute. repeat split; reflexivity. Qed.
